@@ -134,7 +134,8 @@ type Net struct {
 	conns      []*Conn
 	nextDgram  int
 	flowIdx    map[string]int
-	lastDeliv  map[string]int // flow/dir -> highest Index delivered so far
+	lastDeliv  map[string]int       // flow/dir -> highest Index delivered so far
+	lastAt     map[string]time.Time // src>dst -> latest scheduled arrival of an unfaulted datagram
 	tap        Tap
 	stats      Stats
 	logHash    uint64
@@ -162,6 +163,7 @@ func New(seed uint64) *Net {
 		ephemeral:   map[string]int{},
 		flowIdx:     map[string]int{},
 		lastDeliv:   map[string]int{},
+		lastAt:      map[string]time.Time{},
 		logHash:     h.Sum64(),
 		BaseLatency: 5 * time.Millisecond,
 	}
@@ -588,7 +590,17 @@ func (pc *PacketConn) WriteTo(b []byte, addr net.Addr) (int, error) {
 		base += time.Duration(H(n.Seed, "udpjit", uint64(id)) % uint64(n.BaseJitter))
 	}
 	if len(delays) == 0 {
-		delays = []time.Duration{base}
+		// a link does not reorder what it delays equally: keep arrivals on one
+		// (source, destination) pair strictly increasing
+		at := time.Now().Add(base)
+		pair := src + ">" + dst
+		n.mu.Lock()
+		if last, ok := n.lastAt[pair]; ok && !at.After(last) {
+			at = last.Add(time.Microsecond)
+		}
+		n.lastAt[pair] = at
+		n.mu.Unlock()
+		delays = []time.Duration{time.Until(at)}
 	} else {
 		delays = append([]time.Duration(nil), delays...)
 		for i := range delays {
